@@ -195,6 +195,20 @@ pub fn run(rep: &mut Report, tier: &str, seed: u64) {
             }
             check_pretty(rep, &case.loaded.file, case.tsg, case.source, &globals);
         });
+    // faults in the SCOPE of a scoped definition (not a syntax node), found when lazy evaluation forces the variable: whether a
+    // reader triggers the forcing or nothing reads it, the error cites the DEFINING statement
+    for (tsg, src) in [
+        ("(module) @_m {\n  node n\n  let n.v = 1\n}\n", "pass\n"),
+        ("(module) @_m {\n  node n\n  let n.v = 1\n}\n(identifier) @id {\n  node x\n  attr (x) a = @id.v\n}\n", "a = b\n"),
+        ("(module) @_m {\n  if #true {\n    let (plus 1 2).v = 1\n  }\n}\n", "pass\n"),
+        ("(identifier) @id {\n  let (source-text @id).w = @id\n}\n", "x\ny\n"),
+    ] {
+        if let Some(classes) = fixed_case_ctx(rep, &mut runner, tsg, src, &[None], true) {
+            if classes.iter().any(|c| c == "ok") {
+                rep.fail("direct", "C20 a scoped definition whose scope is not a syntax node did not make execution fail", true, json!({"tsg": tsg, "source": src, "outcomes": classes}));
+            }
+        }
+    }
     conflict_stream(rep, &mut runner, tier, seed);
     dead_value_stream(rep, &mut runner, tier, seed);
     per_match_fault_stream(rep, &mut runner, tier, seed);
